@@ -264,19 +264,32 @@ def stream_leg(ck, tier):
     from harness import tlc
     from ssh_audit.ssh_socket import SSH_Socket
     from ssh_audit.outputbuffer import OutputBuffer
-    sizes, maxp, maxc = ('{1, 4, 11}', 2, 2) if tier == 'quick' else ('{1, 4, 11, 12}', 3, 2)
-    cfg = ('SPECIFICATION Spec\nCONSTANTS\n Sizes = %s\n MaxPackets = %d\n MaxCuts = %d\nINVARIANT Aligned\nINVARIANT NoOverread\nINVARIANT AllReturned\n'
-           'INVARIANT Prefix\nINVARIANT Emit\nPROPERTY Terminates\n' % (sizes, maxp, maxc))
+    for proto in (2, 1):
+        _stream_proto(ck, tier, proto)
+
+
+def _stream_proto(ck, tier, proto):
+    from harness import tlc
+    from ssh_audit.ssh_socket import SSH_Socket
+    from ssh_audit.outputbuffer import OutputBuffer
+    # payload sizes cover every padding length of the protocol (SSH-2: 4..11, SSH-1: 1..8 incl. a length that is a multiple of 8)
+    if proto == 2:
+        sizes, maxp, maxc = ('{1, 4, 11}', 2, 2) if tier == 'quick' else ('{1, 4, 11, 12}', 3, 2)
+    else:
+        sizes, maxp, maxc = ('{1, 4, 5, 11}', 2, 2) if tier == 'quick' else ('{1, 4, 5, 11, 12}', 3, 2)
+    cfg = ('SPECIFICATION Spec\nCONSTANTS\n Sizes = %s\n MaxPackets = %d\n MaxCuts = %d\n Proto = %d\nINVARIANT Aligned\nINVARIANT NoOverread\nINVARIANT AllReturned\n'
+           'INVARIANT Prefix\nINVARIANT Emit\nPROPERTY Terminates\n' % (sizes, maxp, maxc, proto))
     res = tlc.run('SshStream', cfg, workers=None)
     ck.add_tlc(res)
-    common.require(res.ok, 'SshStream: %s violated on the reader model:\n%s' % (res.violated, '\n'.join(res.trace[-30:])))
+    common.require(res.ok, 'SshStream (SSH-%d): %s violated on the reader model:\n%s' % (proto, res.violated, '\n'.join(res.trace[-30:])))
     cases = [p for p in res.prints if isinstance(p, dict) and 'cuts' in p]
     common.require(len(cases) > 100, 'SshStream emitted only %d cases' % len(cases))
-    ck.log('SshStream: %d (packet sequence, segmentation) cases; Aligned, NoOverread, AllReturned, Terminates hold' % len(cases))
+    ck.log('SshStream (SSH-%d framing): %d (packet sequence, segmentation) cases; Aligned, NoOverread, AllReturned, Terminates hold' % (proto, len(cases)))
+    mk = (lambda pl: wire.frame(pl)) if proto == 2 else (lambda pl: wire.frame1(pl[0], pl[1:]))
     for c in cases:
         ck.evaluated()
         payloads = [bytes([20 + i]) + bytes((j * 13 + n) & 0xff for j in range(n - 1)) for i, n in enumerate(c['pkts'])]
-        stream = b''.join(wire.frame(pl) for pl in payloads)
+        stream = b''.join(mk(pl) for pl in payloads)
         edges = [0] + list(c['cuts']) + [len(stream)]
         segs = [stream[a:b] for a, b in zip(edges, edges[1:])]
         s = SSH_Socket(OutputBuffer(), 'localhost', 22)
@@ -284,7 +297,7 @@ def stream_leg(ck, tier):
         got = []
         try:
             for _ in range(len(payloads) + 1):
-                got.append(s.read_packet(2))
+                got.append(s.read_packet(proto))
         except BaseException as e:    # noqa
             got.append(('raised', repr(e)))
         want = [(pl[0], pl[1:]) for pl in payloads]
@@ -297,18 +310,18 @@ def stream_leg(ck, tier):
                 # where does the first cut fall within its packet?
                 off, acc = c['cuts'][0], 0
                 for n in c['pkts']:
-                    fl = len(wire.frame(bytes(n)))
+                    fl = len(mk(bytes([2]) + bytes(n - 1)))
                     if off < acc + fl:
                         rel = off - acc
                         cut_kind = 'in-length' if rel < 4 else 'before-payload' if rel < 5 else 'in-payload' if rel < 5 + n else 'in-padding' if rel < fl else 'boundary'
                         break
                     acc += fl
-            ck.violation('stream-read packet=%s cut=%s' % (where, cut_kind),
+            ck.violation('stream-read proto=%d packet=%s cut=%s' % (proto, where, cut_kind),
                          'packets of payload sizes %r delivered in segments cut at %r: read_packet call %d returned %r' % (c['pkts'], c['cuts'], k + 1, got[k] if k < len(got) else None),
                          {'pkts': c['pkts'], 'cuts': c['cuts'], 'returned': [(g[0], g[1].hex() if isinstance(g[1], bytes) else g[1]) for g in got]})
         else:
             ck.cov['traces_validated_against_impl'] += 1
-            ck.nontrivial(('stream', tuple(c['pkts']), tuple(c['cuts'])))
+            ck.nontrivial(('stream', proto, tuple(c['pkts']), tuple(c['cuts'])))
 
 
 def scalar_and_message_legs(ck, rnd, tier):
